@@ -193,35 +193,46 @@ impl Observer for Obs {
             }
             self.ab[mi] = got;
         }
-        // precedence: in a single-event call, with one delivery to the machine and no limits or
-        // budgets in the way, the returned action is that of the innermost state of the chain that has one
-        if c.batch.len() == 1 {
-            for mi in 0..n {
-                let mach = &c.cfg.machines[mi];
-                let ds: Vec<_> = dl.iter().filter(|d| d.machine == mi).collect();
-                if ds.len() != 1 || mach.allowed_padding_packets < 1000 || mach.allowed_blocked_microsec < 1_000_000 {
-                    continue;
-                }
-                let d = ds[0];
-                let chain: Vec<usize> = (d.start..d.end).filter(|k| steps[*k].live).filter_map(|k| steps[k].target).filter(|t| *t != STATE_END && *t != STATE_SIGNAL).collect();
-                if chain.len() < 2 || (d.start..d.end).any(|k| steps[k].event == Event::LimitReached) {
-                    continue;
-                }
-                if chain.iter().any(|t| mach.states[*t].action.map(|a| crate::spec::has_limit(&a)).unwrap_or(false)) {
-                    continue;
-                }
-                let expect = chain.iter().rev().find_map(|t| mach.states[*t].action);
-                let got = c.actions.iter().find(|a| a.machine() == mi);
-                match (expect, got) {
-                    (Some(e), Some(g)) => {
-                        if !action_matches(&e, g) {
-                            return Err(format!("machine {mi}: after the chain of entered states {chain:?} (CounterZero handled immediately) the returned action must be that of the innermost state defining one ({e:?}), got {g:?}"));
-                        }
-                        stats.bump("precedence_checks");
+        // precedence: with no limits or budgets in the way, the action returned for a machine after its
+        // last delivery of the call is that of the innermost state of the chain of entered states
+        // (CounterZero handled immediately, its action wins over the entered state's). With earlier
+        // deliveries to the machine in the same call only the case in which the innermost
+        // CounterZero-entered state defines an action is judged (it is certainly scheduled, and
+        // nothing scheduled later in that delivery may replace it).
+        for mi in 0..n {
+            let mach = &c.cfg.machines[mi];
+            let ds: Vec<_> = dl.iter().filter(|d| d.machine == mi).collect();
+            let Some(d) = ds.last() else { continue };
+            if mach.allowed_padding_packets < 1000 || mach.allowed_blocked_microsec < 1_000_000 {
+                continue;
+            }
+            if ds.iter().any(|d| (d.start..d.end).any(|k| steps[k].event == Event::LimitReached)) {
+                continue;
+            }
+            let chain: Vec<usize> = (d.start..d.end).filter(|k| steps[*k].live).filter_map(|k| steps[k].target).filter(|t| *t != STATE_END && *t != STATE_SIGNAL).collect();
+            if chain.len() < 2 {
+                continue;
+            }
+            if chain.iter().any(|t| mach.states[*t].action.map(|a| crate::spec::has_limit(&a)).unwrap_or(false)) {
+                continue;
+            }
+            // with earlier deliveries: the delivery must end with the entry into the innermost state
+            // (a further nested CounterZero, e.g. to END, is judged against a possibly pending earlier action)
+            let ends_with_entry = steps[d.end - 1].live && steps[d.end - 1].target == chain.last().copied();
+            if ds.len() > 1 && !ends_with_entry {
+                continue;
+            }
+            let expect = if ds.len() == 1 { chain.iter().rev().find_map(|t| mach.states[*t].action) } else { mach.states[*chain.last().unwrap()].action };
+            let got = c.actions.iter().find(|a| a.machine() == mi);
+            match (expect, got) {
+                (Some(e), Some(g)) => {
+                    if !action_matches(&e, g) {
+                        return Err(format!("machine {mi}: after the chain of entered states {chain:?} (CounterZero handled immediately) the returned action must be that of the innermost state defining one ({e:?}), got {g:?}"));
                     }
-                    (Some(e), None) => return Err(format!("machine {mi}: chain {chain:?} should yield {e:?}, nothing was returned")),
-                    _ => {}
+                    stats.bump(if ds.len() == 1 { "precedence_checks" } else { "precedence_checks_after_earlier_deliveries_in_the_call" });
                 }
+                (Some(e), None) => return Err(format!("machine {mi}: chain {chain:?} should yield {e:?}, nothing was returned")),
+                _ => {}
             }
         }
         Ok(engaged)
@@ -259,14 +270,14 @@ pub fn plans(ctx: &WorkerCtx) -> Vec<Plan> {
     let fr = [(0.0, 0.0)];
     let base = Opts { n32: 2, n64: 3, ..Default::default() };
     let mut v = vec![];
-    v.push(Plan { name: "one counter probe (3 ops x 4 value kinds x A/B x 5 start values x 4 CounterZero targets), singles and pairs".into(), cfgs: fam::singles(&ctr, &fr), alpha_for: Box::new(|c: &Cfg| alphabet(c.machines.len(), true)), opts: Opts { depth: if q { 4 } else { 6 }, ..base.clone() }, walk: None });
+    v.push(Plan { name: "one counter probe (3 ops x 6 value kinds (unit, sampled, copy, constant, copy+dist) x A/B x 5 start values x 4 CounterZero targets), singles and pairs".into(), cfgs: fam::singles(&ctr, &fr), alpha_for: Box::new(|c: &Cfg| alphabet(c.machines.len(), true)), opts: Opts { depth: if q { 4 } else { 6 }, ..base.clone() }, walk: None });
     let sub: Vec<_> = ctr.iter().step_by(if q { 11 } else { 3 }).cloned().collect();
     let sub2: Vec<_> = ctr.iter().skip(1).step_by(if q { 37 } else { 13 }).cloned().collect();
     v.push(Plan { name: "two counter probes zeroing on the same event".into(), cfgs: fam::all_pairs(&sub, &sub2, &fr), alpha_for: Box::new(|c: &Cfg| alphabet(c.machines.len(), false)), opts: Opts { depth: if q { 4 } else { 6 }, ..base.clone() }, walk: None });
     let t: Vec<_> = ctr.iter().step_by(if q { 23 } else { 7 }).cloned().collect();
     v.push(Plan { name: "three counter probes".into(), cfgs: fam::triples_strided(&t, &fr), alpha_for: Box::new(|c: &Cfg| alphabet(c.machines.len(), false)), opts: Opts { depth: if q { 3 } else { 5 }, ..base.clone() }, walk: None });
     let g2: Vec<_> = fam::g2(if q { 1499 } else { 149 }, 9).into_iter().filter(|(_, m)| m.states.iter().any(|s| s.counter.0.is_some() || s.counter.1.is_some())).collect();
-    v.push(Plan { name: "G2 machines with counters (saturation at the top, copy, sampled values), pairs".into(), cfgs: fam::pairs_strided(&g2, 31, 7, &[(0.5, 0.5), (0.0, 0.0)]), alpha_for: Box::new(|c: &Cfg| super::c05::alphabet(c.machines.len(), vec![0], false)), opts: Opts { depth: if q { 3 } else { 4 }, ..base.clone() }, walk: None });
+    v.push(Plan { name: "G2 machines with counters (saturation at the top, copy, sampled values), pairs".into(), cfgs: fam::pairs_strided(&g2, 31, 7, if q { &[(0.0, 0.0)] } else { &[(0.5, 0.5), (0.0, 0.0)] }), alpha_for: Box::new(|c: &Cfg| super::c05::alphabet(c.machines.len(), vec![0], false)), opts: Opts { depth: if q { 3 } else { 4 }, ..base.clone() }, walk: None });
     v.push(Plan { name: "G2 machines with counters, single, deeper".into(), cfgs: fam::singles(&g2, &[(0.0, 0.0)]), alpha_for: Box::new(|c: &Cfg| super::c05::alphabet(c.machines.len(), vec![0], false)), opts: Opts { depth: if q { 4 } else { 6 }, ..base.clone() }, walk: None });
     let corp = fam::corpus(ctx.seed.wrapping_add(51), if q { 150 } else { 1500 });
     v.push(Plan { name: "corpus of generated 3-6 state machines (sampled), singles and pairs: BFS plus long random walks".into(), cfgs: { let mut c = fam::singles(&corp, &[(0.5, 0.5)]); c.extend(fam::pairs_strided(&corp, 31, 7, &[(0.0, 0.0), (0.5, 0.5)])); c }, alpha_for: Box::new(|c: &Cfg| super::c05::alphabet(c.machines.len(), vec![0], false)), opts: Opts { depth: if q { 1 } else { 2 }, ..base.clone() }, walk: Some((if q { 3 } else { 6 }, 300)) });
